@@ -1,5 +1,5 @@
 \* exhaustive, price focus, quick tier: every price table of 2 types x 2 capacity types x 2 zones over prices {1,2}
-\* (zone zb of a capacity type: same / overlay-priced +2 / unavailable; "not offered" is in the thorough tier), 1..2 removed nodes, both flag values
-CONSTANTS NTypes = 2  Prices = {1, 2}  ZMods = {"same", "dear", "unavail"}  MaxCands = 2  MinS2S = 2  Focus = "price"  UnavCTs = {}  Weak = ""  GenMod = 1  GenRes = 0
+\* (zone zb of a capacity type: same / overlay-priced +2; unavailable offerings: MCAvail; unavailable / not offered zb: thorough tier), 1..2 removed nodes, both flag values
+CONSTANTS NTypes = 2  Prices = {1, 2}  ZMods = {"same", "dear"}  MaxCands = 2  MinS2S = 2  Focus = "price"  UnavCTs = {}  Weak = ""  GenMod = 1  GenRes = 0
 SPECIFICATION Spec
 INVARIANTS TypeOK Inv_C06_CostDecreases Inv_C06_AtMostOneLaunch Inv_C06_SpotToSpotFeature Inv_C06_SpotToSpotAlternatives Inv_C06_SpotToSpotSettles Inv_C06_NotWorseThanKeeping Inv_C06_EmptyHarmless Inv_C06_PodsSchedulable
